@@ -42,6 +42,7 @@ import (
 	"strconv"
 	"strings"
 	"sync"
+	"sync/atomic"
 	"time"
 
 	gio "github.com/whatap/golib/io"
@@ -541,14 +542,36 @@ func main() {
 		budget = 2400 * time.Second
 	}
 	started = time.Now()
+	// the last resort: a stage that blocks the main goroutine (no decoder of the repository does; a
+	// changed one may) — the failures found so far and the name of the stage are reported, well
+	// before the check's own timeout
+	var current atomic.Value
+	current.Store("generate")
+	go func() {
+		time.Sleep(budget + budget/3)
+		last := &vh.Report{Property: rep.Property, Tier: rep.Tier, Seed: rep.Seed, Evaluations: rep.Evaluations, Rule: rep.Rule,
+			Samples: []interface{}{}, Distribution: map[string]int{"stage-never-returns": 1}, Known: []vh.Known{}, Notes: []string{}, Extra: map[string]interface{}{}}
+		last.Failures = append([]vh.Failure{}, rep.Failures...)
+		name := current.Load().(string)
+		last.Fail("property", "stage-never-returns:"+name, "the stage '"+name+"' of the harness did not return within the harness's time budget: a decoder blocks outside every watchdog", replayCase{Mode: "none"})
+		last.Write(env.Out)
+		os.Exit(0)
+	}()
 	stage := func(name string, f func()) {
 		if overBudget() {
 			rep.Note("stage-cut-short: %s not run (time budget of the harness used up)", name)
 			rep.Count("stage-cut-short:" + name)
 			return
 		}
+		current.Store(name)
+		t0 := time.Now()
 		f()
-		rep.Write(env.Out) // the report exists whatever happens in a later stage
+		rep.Count(fmt.Sprintf("stage-seconds:%s:%d", name, int(time.Since(t0).Seconds()+0.5)))
+		if rep.NFail() > 0 {
+			// what has been found survives whatever happens in a later stage (without a finding there
+			// is no partial report: a harness that dies must not look like a quiet one)
+			rep.Write(env.Out)
+		}
 	}
 	encs := generate(rng, env.Thorough, rep)
 	rep.Note("%d valid encodings generated", len(encs))
@@ -556,7 +579,6 @@ func main() {
 		rep.Sample(map[string]interface{}{"type": encs[i].typ, "kind": encs[i].kind, "len": len(encs[i].b), "hex": vh.Clip(vh.Hex(encs[i].b), 120)})
 	}
 
-	rep.Write(env.Out)
 	stage("prefix", func() { prefixSweep(env, rep, rng, encs) })
 	stage("large", func() { largeSweep(env, rep, rng) })
 	stage("alias", func() { aliasSweep(env, rep, rng, encs) })
